@@ -777,6 +777,28 @@ func (p *PX) instrs(fr *pxFrame, b *ssa.BasicBlock, from int, st *pxState, k pxC
 				_ = cs
 			}
 			decided := tok != fok
+			if decided && c.K == TBoolConst {
+				// a counted loop whose exit test is a comparison of constants on this path (a
+				// scan over a constant table, i < 4 with i = 0, 1, 2 …) terminates by itself:
+				// each pass through its header starts a new iteration, in which the undecided
+				// branches of the body may be taken again — the cap on undecided revisits is
+				// per iteration, not per loop.  (A test merely decided by a fact about a
+				// symbol that the body does not change would never end.)
+				for _, lp := range p.loopsOf(fr.fn) {
+					if lp.header != b {
+						continue
+					}
+					next := b.Succs[1]
+					if tok {
+						next = b.Succs[0]
+					}
+					if lp.body[next] {
+						for bb := range lp.body {
+							delete(st.visits, fmt.Sprintf("%s%d", fr.id, bb.Index))
+						}
+					}
+				}
+			}
 			if tok && fok {
 				s2 := st.clone()
 				s2.env = fe
